@@ -14,7 +14,9 @@ NOTE = ("Trusted: Coq 8.16.1 kernel (full .vo build, vm_compute for finite sweep
 CLAIMED = {
     "C13": ("Theorems (for every byte string, invalid UTF-8 included): @uri|@urid, @html|@htmld and @base64|@base64d (strict decoder) "
             "return the input; per byte (all 256) decoding undoes encoding whatever follows; a POSIX shell reading the word @sh produces "
-            "recovers exactly the original bytes. Correspondence: the codec filters, explode/implode, tobytes, split/join, ascii case "
+            "recovers exactly the original bytes; explode|implode returns every byte string (a decoded character is a scalar value whose "
+            "encoding is the bytes read; invalid bytes travel as negative numbers); the pieces of split joined by the separator are the "
+            "string; the ASCII case maps change nothing but letters and never a byte >= 128. Correspondence: the codec filters, explode/implode, tobytes, split/join, ascii case "
             "against the model on strings over ASCII specials, multi-byte and invalid bytes. Oracles: /bin/sh on 3000 words (alone and "
             "inside format strings), Python csv/json/html/urllib/base64 as consumers, malformed base64/percent input, character counting "
             "of length/explode/indices, regex match offsets and split reassembly. @csv rows are read back field by field and written TSV fields are clean (Fmts/Tabular.v). Partial: regex engine by contract.",
@@ -30,14 +32,17 @@ CLAIMED = {
             "TOML, XML and document-level YAML by oracle (third-party tokenizers), floats in CSV come back as decimal literals.",
             "7.14", "Coq proof (YAML scalars, CSV/TSV reader and writer) + model/implementation correspondence + round trips and independent readers"),
     "C16": ("Theorems about the loader model (Cli/Modules.v): every file is loaded at most once whatever the routes; the open stack is "
-            "restored; a file importing itself is reported as circular. Tie/oracle: random acyclic module graphs on disk (diamonds, "
+            "restored; dependencies are loaded before their dependents; every reached file is loaded; a cycle of any length among the "
+            "reached files makes the load fail, the model's fuel is never what stops it, and every acyclic set of existing files loads. Tie/oracle: random acyclic module graphs on disk (diamonds, "
             "clashes, include/import mix, data imports, command-line variables) run by the binary against their textually inlined "
             "single program; graphs with cycles against the Coq loader (circular vs loaded); 27 look-up cases on real directories "
             "(search metadata relative to the importing file before -L, ~, extension only when none is given, absolute paths refused, "
             "scoping of imports, loader's definitions and call-site variables invisible). Partial: inline_equiv is an oracle, not a theorem.",
             "7.16", "Coq proof (loader) + binary-vs-inlined oracle + model correspondence on cyclic graphs (partial)"),
     "C15": ("Theorems (operator layer, Parse/PrecClimb.v mirrors prec_climb.rs and Term::climb): for chains of any length the tree reads "
-            "back as exactly the input sequence; precedence levels and associativities equal the manual's table; all 625 ordered pairs and "
+            "back as exactly the input sequence, the whole chain is consumed and every node respects the table (left operands bind tighter or "
+            "equally on left-associative levels, right operands tighter or equally on right-associative ones), and that tree is the only one "
+            "over the sequence that respects the table (so the table's parentheses never change the program); precedence levels and associativities equal the manual's table; all 625 ordered pairs and "
             "all 15625 ordered triples of operators (bindings included) group as the table implies (exhaustive, computed in the kernel). "
             "Correspondence/oracle on the implementation: pairs, triples and random chains parse like their table-parenthesised texts and "
             "like the Coq model; programs re-rendered with whitespace/comments (backslash continuation)/redundant parentheses parse "
@@ -53,7 +58,9 @@ CLAIMED = {
             "Coq proof (calendar) + model/implementation correspondence + independent calendar oracle"),
     "C18": ("Partial. Theorems about the model of the in-place block (Cli/InPlace.v): at every prefix of the operation sequence (every "
             "crash point) the file holds its old bytes or - only after success - exactly the complete output; after success the output, "
-            "the old permission bits and no temporary file; after failure the file untouched and no temporary file. Tie: final directory "
+            "the old permission bits and no temporary file; after failure the file untouched and no temporary file; for several distinct files: at every crash point of the whole run "
+            "every file holds its old bytes or its own complete output, the files before a failing one hold their outputs and the failing "
+            "and later ones their old contents, and no temporary file of the run is left. Tie: final directory "
             "states and strace syscall sequences of the binary on 14 scenarios (1-3 files, modes, relative/absolute paths, filter errors, "
             "parse errors) against the model; fault enumeration: SIGKILL injected at every write/rename/chmod/open call and EIO at every "
             "write/rename. Not covered: crash consistency below the syscall layer (no fsync).", "7.18",
@@ -179,7 +186,9 @@ CLAIMED = {
             "monotone conversion checked per integer in the kernel). Partial: integers between 4096 and 2^53 next to floats, and the "
             "interchangeability of equal keys beyond numbers, rest on the correspondence and the oracles.", "7.8", "Coq proof + model/implementation correspondence + order-axiom oracle"),
     "C09": ("Theorems: + - * % and negation of integers are exact for all four representation combinations; integer-ness rule; "
-            "float otherwise (SpecFloat); representation independence of index/slice positions and comparison. Correspondence: "
+            "float otherwise (SpecFloat); representation independence of index/slice positions and comparison; the non-numeric cases (null neutral for +, "
+            "concatenation, array minus, string division with join as inverse) and the table of shapes on which each operator "
+            "succeeds - everything else is an error. Correspondence: "
             "boundary-straddling operand pairs, all number atoms, non-numeric operands, 29 integer consumers under both "
             "representations; oracle: Python exact arithmetic.", "7.9", "Coq proof + model/implementation correspondence + exact-arithmetic oracle"),
 }
